@@ -8,13 +8,24 @@ Inductive observed :=
 | Obs (rs : list res) (final : list snap)
 | HarnessPanic (msg : string).
 
-Definition case := (list op * observed)%type.
+(* input: the listener scripts (per event slot a queue) and the top-level calls *)
+Definition case := (lsn * list op * observed)%type.
+
+(* more than any generated or corpus case needs: the fuel is never exhausted while it exceeds the
+   number of queued scripts (AttrReProofs.fuel_suffices) *)
+Definition case_fuel (L : lsn) : nat := S (n_scripts L).
 
 Definition lstate_eqb (a b : lstate) : bool :=
   match a, b with
   | Invalid, Invalid | Dead, Dead | Limbo, Limbo | Alive, Alive => true
   | _, _ => false
   end.
+
+Definition snap_eqb (a b : snap) : bool :=
+  feqb_bits (g_hp a) (g_hp b) && feqb_bits (g_energy a) (g_energy b) &&
+  feqb_bits (g_maxEnergy a) (g_maxEnergy b) && feqb_bits (g_stance a) (g_stance b) &&
+  feqb_bits (g_maxStance a) (g_maxStance b) && lstate_eqb (g_state a) (g_state b) &&
+  (g_last a =? g_last b) && (g_sp a =? g_sp b).
 
 Definition ev_eqb (a b : ev) : bool :=
   match a, b with
@@ -29,24 +40,26 @@ Definition ev_eqb (a b : ev) : bool :=
   | EBreak k t s, EBreak k' t' s' => (k =? k') && (t =? t') && (s =? s')
   | EReset k t, EReset k' t' => (k =? k') && (t =? t')
   | ESP k s o n, ESP k' s' o' n' => (k =? k') && (s =? s') && (o =? o') && (n =? n')
+  | ESeen g, ESeen g' => snap_eqb g g'
+  | ERet e, ERet e' => e =? e'
   | _, _ => false
   end.
-
-Definition snap_eqb (a b : snap) : bool :=
-  feqb_bits (g_hp a) (g_hp b) && feqb_bits (g_energy a) (g_energy b) &&
-  feqb_bits (g_maxEnergy a) (g_maxEnergy b) && feqb_bits (g_stance a) (g_stance b) &&
-  feqb_bits (g_maxStance a) (g_maxStance b) && lstate_eqb (g_state a) (g_state b) &&
-  (g_last a =? g_last b) && (g_sp a =? g_sp b).
 
 Definition res_eqb (a b : res) : bool :=
   list_eqb ev_eqb (r_evs a) (r_evs b) && (r_err a =? r_err b) && snap_eqb (r_snap a) (r_snap b).
 
-Definition model_out (c : case) : observed :=
-  let (s, rs) := run init (fst c) in Obs rs (dump s).
+Inductive model_result := MObs (rs : list res) (final : list snap) | MOutOfFuel.
+
+Definition model_out (c : case) : model_result :=
+  let '(L, ops, _) := c in
+  match rrun (case_fuel L) init L ops with
+  | Some (s, _, rs) => MObs rs (dump s)
+  | None => MOutOfFuel
+  end.
 
 Definition check_case (c : case) : bool :=
   match model_out c, snd c with
-  | Obs rs fin, Obs rs' fin' => list_eqb res_eqb rs rs' && list_eqb snap_eqb fin fin'
+  | MObs rs fin, Obs rs' fin' => list_eqb res_eqb rs rs' && list_eqb snap_eqb fin fin'
   | _, _ => false
   end.
 
@@ -92,7 +105,7 @@ Definition known_put (id : Z) (g : snap) (kn : list (Z * snap)) : list (Z * snap
 Definition ev_target (e : ev) : option Z :=
   match e with
   | EHP _ t _ _ _ _ _ | ELimbo t | EEnergy _ t _ _ _ | EStance _ t _ _ _ | EBreak _ t _ | EReset _ t => Some t
-  | ESP _ _ _ _ => None
+  | ESP _ _ _ _ | ESeen _ | ERet _ => None
   end.
 
 Definition count {A} (p : A -> bool) (l : list A) : nat := List.length (filter p l).
@@ -212,14 +225,180 @@ Definition final_ok (kn : list (Z * snap)) (spf : Z) (final : list snap) : bool 
     | None => lstate_eqb (g_state g) Invalid
     end) (combine dump_ids final).
 
-Definition monitor_case (c : case) : bool :=
-  let (ops, obs) := c in
-  if forallb op_okb ops then
+(* the monitor of histories WITHOUT listener scripts (every listener only records): the per-call
+   clause at full strength - exactly one event per changed quantity, old = before, new = after *)
+Definition not_harness_item (e : ev) : bool :=
+  match e with ESeen _ | ERet _ => false | _ => true end.
+Definition strip (rs : list res) : list res :=
+  map (fun r => mkRes (filter not_harness_item (r_evs r)) (r_err r) (r_snap r)) rs.
+
+Definition monitor_flat (ops : list op) (obs : observed) : bool :=
+  match obs with
+  | Obs rs0 final =>
+      let rs := strip rs0 in
+      let '(ok, kn, spf) := calls_ok [] 3 ops rs in
+      let evs := flat_map r_evs rs in
+      ok && final_ok kn spf final && chain_ok [] evs && sp_chain_ok None evs
+  | HarnessPanic _ => false
+  end.
+
+(* ------------------------------------------------------------------------------------ *)
+(* The monitor of histories WITH re-entrant listeners.  It follows the recorded events in *)
+(* the order the listeners were entered and keeps, per unit, the value every quantity     *)
+(* must have if every change was reported: an event's old value must be that value (==),  *)
+(* its new value becomes it; every reading of the getters - [ESeen] at every event, the   *)
+(* getters after every top-level call, the final dump - must return it.  So a change that *)
+(* is not reported, an event that reports another old value than the current one, or an   *)
+(* event whose new value is not what is stored when the listeners run is rejected.        *)
+(* [full] = the whole property text; [negb full] = what holds of today's code (StanceBreak *)
+(* / StanceReset are announced BEFORE the new stance is stored, so their listeners can    *)
+(* make the announcing call's own StanceChange an event with old == new and can have one  *)
+(* zero crossing announced twice; Proofs/AttrReProofs.v, C07_re_full_refuted).            *)
+(* ------------------------------------------------------------------------------------ *)
+
+Definition in01 (x hi : float) : bool := leb 0 x && leb x hi.
+
+(* a reading [g] of unit [id] agrees with the tracked reading [k] (==: a store that changes
+   nothing may turn +0 into -0 without an event), and is in range *)
+Definition reading_ok (k g : snap) (spv : Z) : bool :=
+  eqb (g_hp k) (g_hp g) && eqb (g_energy k) (g_energy g) && eqb (g_stance k) (g_stance g) &&
+  feqb_bits (g_maxEnergy k) (g_maxEnergy g) && feqb_bits (g_maxStance k) (g_maxStance g) &&
+  (g_sp g =? spv) && snap_in_range g.
+
+Definition with_hp (k : snap) (x : float) : snap :=
+  mkSnap x (g_energy k) (g_maxEnergy k) (g_stance k) (g_maxStance k) (g_state k) (g_last k) (g_sp k).
+Definition with_energy (k : snap) (x : float) : snap :=
+  mkSnap (g_hp k) x (g_maxEnergy k) (g_stance k) (g_maxStance k) (g_state k) (g_last k) (g_sp k).
+Definition with_stance (k : snap) (x : float) : snap :=
+  mkSnap (g_hp k) (g_energy k) (g_maxEnergy k) x (g_maxStance k) (g_state k) (g_last k) (g_sp k).
+
+(* one event [e] and the reading [g] taken when its listener was entered *)
+Definition track_event (full : bool) (kn : list (Z * snap)) (spv : Z) (e : ev) (g : snap)
+  : option (list (Z * snap) * Z) :=
+  let unit_event t (upd : snap -> option snap) :=
+    match known_get t kn with
+    | None => None                        (* an event about a unit that was never registered *)
+    | Some k =>
+        match upd k with
+        | None => None
+        | Some k' => if reading_ok k' g spv then Some (known_put t g kn, spv) else None
+        end
+    end in
+  match e with
+  | EHP _ t o n _ _ _ =>
+      unit_event t (fun k =>
+        if eqb (g_hp k) o && negb (eqb o n) && feqb_bits (g_hp g) n then Some (with_hp k n) else None)
+  | EEnergy _ t _ o n =>
+      unit_event t (fun k =>
+        if eqb (g_energy k) o && negb (eqb o n) && feqb_bits (g_energy g) n then Some (with_energy k n) else None)
+  | EStance _ t _ o n =>
+      unit_event t (fun k =>
+        if eqb (g_stance k) o && (negb full || negb (eqb o n)) && feqb_bits (g_stance g) n
+        then Some (with_stance k n) else None)
+  | EBreak _ t _ | EReset _ t | ELimbo t => unit_event t (fun k => Some k)
+  | ESP _ src o n =>
+      if (o =? spv) && negb (o =? n) && (0 <=? n) && (n <=? 5) && (g_sp g =? n) then
+        match known_get src kn with
+        | Some k => if reading_ok k g n then Some (known_put src g kn, n) else None
+        | None => match g_state g with Invalid => Some (kn, n) | _ => None end
+        end
+      else None
+  | ESeen _ | ERet _ => None
+  end.
+
+Fixpoint track (full : bool) (kn : list (Z * snap)) (spv : Z) (evs : list ev)
+  : option (list (Z * snap) * Z) :=
+  match evs with
+  | [] => Some (kn, spv)
+  | ERet _ :: r => track full kn spv r
+  | e :: r =>
+      match r with
+      | ESeen g :: r' =>
+          match track_event full kn spv e g with
+          | None => None
+          | Some (kn', spv') => track full kn' spv' r'
+          end
+      | _ => None                          (* every event is followed by its reading *)
+      end
+  end.
+
+(* the top-level calls: the events of each, then the getters of its target *)
+Fixpoint track_calls (full : bool) (kn : list (Z * snap)) (spv : Z) (ops : list op) (rs : list res)
+  : option (list (Z * snap) * Z) :=
+  match ops, rs with
+  | [], [] => Some (kn, spv)
+  | o :: ops', r :: rs' =>
+      match track full kn spv (r_evs r) with
+      | None => None
+      | Some (kn1, spv1) =>
+          let t := op_target o in
+          let g := r_snap r in
+          match known_get t kn1, g_state g with
+          | Some k, _ => if reading_ok k g spv1 then track_calls full (known_put t g kn1) spv1 ops' rs' else None
+          | None, Invalid => if g_sp g =? spv1 then track_calls full kn1 spv1 ops' rs' else None
+          | None, _ =>
+              (* first sight of a unit: only a registration without events *)
+              match o, r_evs r with
+              | OAdd _ _ _ _ _ _, [] =>
+                  if (g_sp g =? spv1) && snap_in_range g then track_calls full (known_put t g kn1) spv1 ops' rs'
+                  else None
+              | _, _ => None
+              end
+          end
+      end
+  | _, _ => None
+  end.
+
+Definition track_final (kn : list (Z * snap)) (spv : Z) (final : list snap) : bool :=
+  Nat.eqb (List.length final) (List.length dump_ids) &&
+  forallb (fun p : Z * snap =>
+    let (id, g) := p in
+    match known_get id kn with
+    | Some k => reading_ok k g spv
+    | None => lstate_eqb (g_state g) Invalid && (g_sp g =? spv)
+    end) (combine dump_ids final).
+
+(* break / reset announcements of unit [id] against its StanceChange events *)
+Definition stance_evs (id : Z) (evs : list ev) : list (float * float) :=
+  flat_map (fun e => match e with EStance _ t _ o n => if t =? id then [(o, n)] else [] | _ => [] end) evs.
+Definition n_break_of (id : Z) (evs : list ev) : nat :=
+  count (fun e => match e with EBreak _ t _ => t =? id | _ => false end) evs.
+Definition n_reset_of (id : Z) (evs : list ev) : nat :=
+  count (fun e => match e with EReset _ t => t =? id | _ => false end) evs.
+
+Definition announce_ok (full : bool) (id : Z) (evs : list ev) : bool :=
+  let st := stance_evs id evs in
+  let reach := count (fun p : float * float => ltb 0 (fst p) && eqb (snd p) 0) st in
+  let leave := count (fun p : float * float => eqb (fst p) 0 && ltb 0 (snd p)) st in
+  let zero_new := count (fun p : float * float => eqb (snd p) 0) st in
+  if full then Nat.eqb (n_break_of id evs) reach && Nat.eqb (n_reset_of id evs) leave
+  else Nat.eqb (n_break_of id evs) zero_new && Nat.leb leave (n_reset_of id evs).
+
+Definition is_add (o : op) : bool := match o with OAdd _ _ _ _ _ _ => true | _ => false end.
+Definition queues (L : lsn) : list (list script) :=
+  [l_hp L; l_limbo L; l_stance L; l_break L; l_reset L; l_energy L; l_sp L].
+Definition lsn_okb (L : lsn) : bool :=
+  forallb (forallb (forallb (fun o => op_okb o && negb (is_add o)))) (queues L).
+Definition lsn_empty (L : lsn) : bool := forallb (fun q => match q with [] => true | _ => false end) (queues L).
+
+Definition monitor_gen (full : bool) (c : case) : bool :=
+  let '(L, ops, obs) := c in
+  if forallb op_okb ops && lsn_okb L then
     match obs with
     | Obs rs final =>
-        let '(ok, kn, spf) := calls_ok [] 3 ops rs in
         let evs := flat_map r_evs rs in
-        ok && final_ok kn spf final && chain_ok [] evs && sp_chain_ok None evs
+        match track_calls full [] 3 ops rs with
+        | Some (kn, spv) => track_final kn spv final
+        | None => false
+        end &&
+        forallb (fun id => announce_ok full id evs) dump_ids &&
+        (* without listener scripts: the per-call clause, exactly *)
+        (if lsn_empty L then monitor_flat ops obs else true)
     | HarnessPanic _ => false
     end
   else true.
+
+(* what is evaluated on every implementation output *)
+Definition monitor_case (c : case) : bool := monitor_gen false c.
+(* the property text at full strength: rejects today's code on the witnesses of C07_re_full_refuted *)
+Definition monitor_full (c : case) : bool := monitor_gen true c.
